@@ -60,7 +60,11 @@ def _analyse(prop: str, root: Path, evdir: Path):
             ctx = report.Ctx(prop, "quick", repo)
             ctx.quiet = True
             mod = importlib.import_module(f"sa.checks.{prop.lower()}")
-            mod.run(ctx)
+            try:
+                mod.run(ctx)
+            except AnalysisError:
+                if not any(i.verdict == "violation" for i in ctx.instances):
+                    raise
             keys = {i.key for i in ctx.instances if i.verdict == "violation"}
             rc = ctx.finish()
         except AnalysisError as e:
